@@ -247,11 +247,16 @@ def gold(text, separator=Separator()):
         the algorithms are evaluated.
 
     """
-    # delete phone and syllable separators. Replace word boundaries by
-    # a single space.
-    gold = (line.replace(separator.syllable or '', '')
-            .replace(separator.phone or '', '')
-            .replace(separator.word, ' ') for line in text)
+    # delete phone and syllable separators. The spaces still present
+    # within a word are padding between tokens and separators: remove
+    # them and replace word boundaries by a single space.
+    def _gold(line):
+        line = (line.replace(separator.syllable or '', '')
+                .replace(separator.phone or '', ''))
+        return ' '.join(
+            word.replace(' ', '') for word in line.split(separator.word))
+
+    gold = (_gold(line) for line in text)
 
     # delete any duplicate, begin or end spaces. As for prepare, we
     # ignore empty lines.
